@@ -429,7 +429,7 @@ VALS = ["v", "", "x y", "a&b=c", "#", "?", "%41", "+", u"é", 0, 1, 14, 1.5, -2.
 KEYS_S = ["a", "a b", "a&b", "k=", "100%", u"é"]
 VALS_S = ["v", "", "x y", "a&b=c", "%41", 0, 1.5, True, False, None]
 
-F2_PATHS = [None, "test", "/test", "a/b", "a/b/", "", "/", ["a"], ["a", "b"], ["articles", 0, "x.html"], []]
+F2_PATHS = [None, "test", "/test", "a/b", "a/b/", "", "/", ["a"], ["a", "b"], ["articles", 0, "x.html"], [], ["/a", "b"], ["", "a"], ["//a"], ("a", "b")]
 F2_ARGS = [None, {}, {"a": None}, {"a": False, "b": None}, {"a": 1}, {"a b": "x y", "n": True}, [], [["a", None]],
            [["id", 3], ["name", "J&J"], ["id", 2]], {"a": True}]
 F2_FRAGS = [None, "f", "#f", "", "a b", "x?y", u"é"]
